@@ -25,7 +25,9 @@ def main():
     import multiprocessing
     with ProcessPoolExecutor(max_workers=8, mp_context=multiprocessing.get_context("fork")) as ex:
         for r in ex.map(regress._one, jobs):
-            print("%-10s %-12s %s %s" % (r["id"], r["status"][:60], ",".join(r.get("rules", [])), r.get("first", "")[:200]))
+            print("%-10s %-12s %s %s" % (r["id"], r["status"][:200], ",".join(r.get("rules", [])), r.get("first", "")[:200]))
+            for a in r.get("all", []):
+                print("      " + a[:600])
 
 
 if __name__ == "__main__":
